@@ -1,15 +1,5 @@
 """Per-property configuration used by ./check (rules, trusted-base notes, assumptions)."""
-PROPS = {
- "C18": {
-  "consts": True,
-  "rule": "stream latch (bare IceConn, full state incl. the hidden probation table compared after every op): every sequence of the stated length over the 21-symbol alphabet ({A,B,C} x {RTP expected-SSRC x marker x seq +1/-3, RTP other SSRC, RTCP} + reset, signaling retarget, pair update; A and C share the IP, B and C share the port; retarget / pair addresses are not sources) for each probation setting and each of 4 prefixes (SSRC+RTCP address+enable; enable only; unset destination 0.0.0.0:0; latching off), all 4^L two-source rule-competition sequences for windows 3..7, all 11^L mid-window API sequences (2 sources x run/break + reset, retarget, pair, same/changed SSRC, window size, enable; L=5 for windows 4 and 6, L=4 for 2 and 3; thorough L=6 for window 4), 4 directed reset-in-open-window cases, three directed window-255 sequences, plus seeded random sequences of length 1..300 with malformed/short/DTLS/garbage packets, unset and port-0 destinations, IPv6 / v4-mapped sources, API ops and TCP-stream sockets; stream pc: a real PeerConnection (RTP mode, latching) driven by SDP (pranswer, changed/unchanged final answer, re-INVITE), STUN binding requests and real UDP datagrams, destination, latch, expected SSRC and RTCP destination compared after every step (SDPs announce varying a=ssrc; offerer and answerer extra transports; STUN on primary and extra transports), IceConn::send / try_send / send_rtcp probed; stream race: every schedule (2^7 quick / 2^9 thorough prefixes) of receive() racing with reset / signaling retarget / pair update over 7 setups, executed on the real code through the verif_sched yield points; stream writers: count of remote_addr.write() sites per source file. A case is non-trivial when the latch commits or the destination moves (pc / race / writers cases always); distinct = distinct op lines",
-  "trusted": ["modelled, not verified: IceConn::receive latch/address logic, the latch API (src/transports/ice/conn.rs) as the hand-written RtcModel/Latch.lean, and the yield-point granules of receive / reset / retarget / pair update as RtcModel/LatchRace.lean; the documented rules as RtcModel/LatchSpec.lean (hand-written from the doc comment)",
-              "callers in src/peer_connection.rs and src/transports/ice/mod.rs are tied by the pc stream (scenarios, not exhaustive) and by the writers stream (no write to remote_addr outside the six modelled sites in conn.rs); sockets and forwarding targets are outside the model (forwarding slot compared; send paths probed on real sockets in the pc stream)"],
-  "assumptions": ["latching enabled (latch_on_rtp = true) is the only configuration hypothesis of the sticky / move / RTCP theorems; with latching off the unset-destination and TCP-stream adoption is modelled and compared but outside the property",
-                  "clause 1 (moves only to sources of expected-SSRC RTP) is proved for packet-caused moves; a signaling retarget may set any address; a selected-pair update moves an OPEN latch to the pair address - in RTP mode that includes an unauthenticated STUN binding request from the pair's port on another IP: KNOWN finding pc:move:stun-request-moved-open-destination (witness theorem move_by_pair_update_witness)",
-                  "concurrency: receive() of one packet against ONE concurrent latch API call (reset, signaling retarget, pair update), sequentially consistent atomics; mutual exclusion by the probation mutex is an assumption of the Lean interleaving model and is observed on the real code by the race executor (try_lock probe); packet-vs-packet is serial (one runner task per connection); enable_latch_on_rtp / set_expected_ssrc / set_remote_rtcp_addr / RTCP learning racing with receive are not in the interleaving model"],
- },
-}
+PROPS = {}   # filled from tools/propcfg.d/*.json (one fragment per property) and tools/claims.d/*.json
 
 import os as _os, json as _json, glob as _glob
 for _f in sorted(_glob.glob(_os.path.join(_os.path.dirname(_os.path.abspath(__file__)), "propcfg.d", "*.json"))):
